@@ -154,3 +154,52 @@ def check_memo_keys(rule, idx, f: FunctionInfo) -> int:
                    f"with the same key and a different {missing[0] if missing else ''} gets the value computed for the first call",
                    stmt=f"memo {norm1(C, 40)}")
     return len(sites)
+
+
+INPLACE_METHODS = ("fill", "sort", "resize", "put", "itemset", "partition", "setfield", "clip_", "append", "extend", "update", "clear", "pop", "insert")
+
+
+def check_memo_results_not_mutated(rule, idx, cls) -> int:
+    """The object a memoised provider returns IS the cache entry.  A caller that changes it in place (`w += …`, `w[...] = …`, `w.fill(…)`)
+    changes what every later call with the same key gets.  Flags in-place updates of names bound directly to such a call."""
+    from ..defuse import DefUse
+    providers = {}
+    for m in cls.methods.values():
+        ss = memo_sites(m)
+        if not ss:
+            continue
+        rets = [r for r in ast.walk(m.node) if isinstance(r, ast.Return) and r.value is not None]
+        if any(any(norm(r.value) == f"{norm(C)}[{norm(K)}]" for (_, _, C, K) in ss) for r in rets):
+            providers[m.name] = m
+    n = 0
+    if not providers:
+        return 0
+    for f in cls.methods.values():
+        S = None
+        for st in ast.walk(f.node):
+            tgt = None
+            how = None
+            if isinstance(st, ast.AugAssign) and isinstance(st.target, ast.Name):
+                tgt, how = st.target, f"`{norm1(st)}`"
+            elif isinstance(st, ast.AugAssign) and isinstance(st.target, ast.Subscript) and isinstance(st.target.value, ast.Name):
+                tgt, how = st.target.value, f"`{norm1(st)}`"
+            elif isinstance(st, ast.Assign) and isinstance(st.targets[0], ast.Subscript) and isinstance(st.targets[0].value, ast.Name):
+                tgt, how = st.targets[0].value, f"`{norm1(st)}`"
+            elif isinstance(st, ast.Expr) and isinstance(st.value, ast.Call) and isinstance(st.value.func, ast.Attribute) and st.value.func.attr in INPLACE_METHODS \
+                    and isinstance(st.value.func.value, ast.Name):
+                tgt, how = st.value.func.value, f"`{norm1(st)}`"
+            if tgt is None:
+                continue
+            S = S or Sem(idx, f)
+            try:
+                ds = S.du.reaching(tgt.id, S.cfg.node(st))
+            except AnalysisError:
+                continue
+            for d in ds:
+                v = d.value
+                if d.kind == "assign" and isinstance(v, ast.Call) and isinstance(v.func, ast.Attribute) and isinstance(v.func.value, ast.Name) \
+                        and v.func.value.id in ("self", "cls") and v.func.attr in providers:
+                    n += 1
+                    rule.violation(f, st, f"{how} changes in place the object returned by the memoised `{v.func.attr}` — that object is the cache entry itself, so "
+                                   f"every later evaluation with the same key starts from the modified value (results depend on how often they were asked for)")
+    return n
